@@ -45,7 +45,9 @@ def dec(o):
         if "$dt" in o:
             d = datetime.fromisoformat(o["$dt"])
             if "off_s" in o and o["off_s"] is not None:
-                d = d.replace(tzinfo=timezone(timedelta(seconds=o["off_s"]), o.get("tzname")))
+                nm = o.get("tzname")
+                td = timedelta(seconds=o["off_s"])
+                d = d.replace(tzinfo=timezone(td, nm) if isinstance(nm, str) else timezone(td))
             return d
         if "$date" in o:
             return date.fromisoformat(o["$date"])
